@@ -363,12 +363,19 @@ class Session:
 
 
 def _chunks(items, processes, chunksize):
+    """Pool._map_async's batching.  An explicit chunksize of 0 schedules NO task at all and map()
+    returns [None] * len(items) (MapResult with chunksize <= 0 is born finished); a negative one
+    makes the real task handler die, i.e. map() never returns."""
     if chunksize is None:
         chunksize, extra = divmod(len(items), processes * 4)
         if extra:
             chunksize += 1
-    if chunksize < 1:
-        chunksize = 1
+    if len(items) == 0:
+        return []
+    if chunksize == 0:
+        return None
+    if chunksize < 0:
+        raise PoolHang("ThreadPool.map with chunksize=%r never returns" % (chunksize,))
     return [items[i : i + chunksize] for i in range(0, len(items), chunksize)]
 
 
@@ -462,6 +469,8 @@ class SimPool:
             return []
         sess = ACTIVE
         chunks = _chunks(items, self._processes, chunksize)
+        if chunks is None:
+            return [None] * len(items)
         if sess is None:
             # no simulation session: same chunk semantics, executed serially in the caller
             SimPool.unsimulated_uses += 1
